@@ -4,6 +4,7 @@ import (
 	"fmt"
 	"go/ast"
 	"go/token"
+	"sort"
 	"strings"
 )
 
@@ -117,6 +118,52 @@ func c04StopsWithoutKey(fd *ast.FuncDecl) bool {
 	return found
 }
 
+// c04KeyMutators scans the packages that hold end-to-end session keys for
+// (a) calls of Zero() on a session key and (b) assignments to a
+// sessionKey / SessionKey field (composite literals that set the key when the
+// holder is created are not assignments). Returned as "pkg.Recv.Func" names.
+func c04KeyMutators() (zeroers, writers []string) {
+	seenZ, seenW := map[string]bool{}, map[string]bool{}
+	for _, pkg := range []string{"agent", "exit", "forward", "shell", "stream", "udp", "icmp", "health", "filetransfer", "socks5"} {
+		for _, f := range parseDir("internal/" + pkg) {
+			for _, d := range f.Decls {
+				fd, ok := d.(*ast.FuncDecl)
+				if !ok || fd.Body == nil {
+					continue
+				}
+				name := pkg + "." + fd.Name.Name
+				if r := recvName(fd); r != "" {
+					name = pkg + "." + r + "." + fd.Name.Name
+				}
+				ast.Inspect(fd.Body, func(n ast.Node) bool {
+					switch x := n.(type) {
+					case *ast.CallExpr:
+						if sel, ok := x.Fun.(*ast.SelectorExpr); ok && sel.Sel.Name == "Zero" && strings.Contains(strings.ToLower(src(sel.X)), "sessionkey") {
+							if !seenZ[name] {
+								seenZ[name] = true
+								zeroers = append(zeroers, name)
+							}
+						}
+					case *ast.AssignStmt:
+						for _, l := range x.Lhs {
+							if sel, ok := l.(*ast.SelectorExpr); ok && (sel.Sel.Name == "sessionKey" || sel.Sel.Name == "SessionKey") {
+								if !seenW[name] {
+									seenW[name] = true
+									writers = append(writers, name)
+								}
+							}
+						}
+					}
+					return true
+				})
+			}
+		}
+	}
+	sort.Strings(zeroers)
+	sort.Strings(writers)
+	return
+}
+
 func genC04(g *gen) {
 	type row struct {
 		name string
@@ -172,6 +219,17 @@ func genC04(g *gen) {
 		{"RelayICMPEcho", c04SealsWithKey(findFunc(icmpFile, "Agent", "RelayICMPEcho"))},
 		{"runWSICMPSender", c04SealsWithKey(findFunc(icmpFile, "Agent", "runWSICMPSender"))},
 	})
+
+	zeroers, writers := c04KeyMutators()
+	strList := func(xs []string) string {
+		var it []string
+		for _, x := range xs {
+			it = append(it, coqString(x))
+		}
+		return "[" + strings.Join(it, "; ") + "]"
+	}
+	g.line("Definition gen_session_key_zeroers : list string :=\n  %s.", strList(zeroers))
+	g.line("Definition gen_session_key_writers : list string :=\n  %s.", strList(writers))
 
 	emit("gen_stream_senders_need_key", []row{
 		{"meshConn.Write", c04StopsWithoutKey(findFunc(agentFile, "meshConn", "Write"))},
